@@ -22,8 +22,9 @@
  * Compressor contract: do_block(in, n, out, m) requires r_ok(in, n),
  * w_ok(out, m); returns r <= m (any negative = error) and writes only
  * out[0..r); deterministic: the same input gives the same r and bytes (ghost
- * g_ret / g_out fixed per harness run). xxh32: an arbitrary but fixed
- * function value for the (identical) input. is_memory_zero: its definition.
+ * g_ret / g_out fixed per harness run). xxh32: a simple function of the
+ * bytes hashed (seeded arbitrarily), so that hashing anything but the block's
+ * own bytes shows. is_memory_zero: its definition.
  */
 #include <stdlib.h>
 #include <string.h>
@@ -47,8 +48,17 @@ static unsigned g_cmp_calls;
 
 sqfs_u32 xxh32(const void *input, const size_t len)
 {
-	VERIF_ASSERT(VERIF_R_OK(input, len), "C02.worker.hash_pre");
-	return g_hash;
+	const sqfs_u8 *p = input;
+	sqfs_u32 h = g_hash;
+	size_t i;
+
+	VERIF_ASSERT(len <= BS && VERIF_R_OK(input, len), "C02.worker.hash_pre");
+	/* some function of the bytes (and nothing else) */
+	for (i = 0; i < BS; ++i) {
+		if (i < len)
+			h = (h << 5) ^ (h >> 27) ^ p[i];
+	}
+	return h;
 }
 
 bool is_memory_zero(const void *blob, size_t size)
@@ -86,31 +96,32 @@ static sqfs_s32 stub_do_block(sqfs_compressor_t *cmp, const sqfs_u8 *in,
 	return g_ret;
 }
 
-/* other function-pointer call sites of the translation unit: unreachable */
-static int stub_unreach_read_at(sqfs_file_t *f, sqfs_u64 off, void *buf, size_t n)
+/* other function-pointer call sites of the translation unit: unreachable
+ * (external linkage, so that the symbols exist even while nothing calls them) */
+int stub_unreach_read_at(sqfs_file_t *f, sqfs_u64 off, void *buf, size_t n)
 {
 	(void)f; (void)off; (void)buf; (void)n;
 	VERIF_ASSERT(0, "C02.worker.unreachable");
 	return -1;
 }
-static void stub_unreach_destroy(sqfs_object_t *o)
+void stub_unreach_destroy(sqfs_object_t *o)
 {
 	(void)o;
 	VERIF_ASSERT(0, "C02.worker.unreachable");
 }
-static sqfs_object_t *stub_unreach_copy(const sqfs_object_t *o)
+sqfs_object_t *stub_unreach_copy(const sqfs_object_t *o)
 {
 	(void)o;
 	VERIF_ASSERT(0, "C02.worker.unreachable");
 	return NULL;
 }
-static size_t stub_unreach_get_worker_count(thread_pool_t *p)
+size_t stub_unreach_get_worker_count(thread_pool_t *p)
 {
 	(void)p;
 	VERIF_ASSERT(0, "C02.worker.unreachable");
 	return 1;
 }
-static void stub_unreach_set_worker_ptr(thread_pool_t *p, size_t i, void *u)
+void stub_unreach_set_worker_ptr(thread_pool_t *p, size_t i, void *u)
 {
 	(void)p; (void)i; (void)u;
 	VERIF_ASSERT(0, "C02.worker.unreachable");
